@@ -77,6 +77,9 @@ ITEMS = {
                      "        return 'd' + super().who()", "L('cs{d}', D{d}().who())"], (), ()),
     "import": (["import os.path as op{d}", "from math import floor as fl{d}",
                 "L('im{d}', op{d}.basename('a/b'), fl{d}(2.5))"], (), ()),
+    "from_same_module": (["from os.path import join as jn{d}", "from os.path import basename as bn{d}, dirname as dn{d}",
+                          "import xml.dom.minidom as md{d}", "from xml.dom import minidom as md2{d}",
+                          "L('fm{d}', bn{d}(jn{d}('a', 'b')), dn{d}('c/d'), md{d} is md2{d})"], (), ()),
     "comp": (["l{d} = [1, 2, 3]",
               "L('co{d}', [e * 2 for e in l{d} if e != 2], {e: e for e in l{d}}, sum(e for e in l{d}))"], (), ()),
     "comp_closure": (["m{d} = 3", "L('cc{d}', [e + m{d} for e in range(2)], [(lambda: m{d} + e)() for e in range(2)])"],
@@ -171,6 +174,41 @@ def deep(n=4):
             yield (chain, (it,))
 
 
+def build_repeat(container, item, form):
+    """the SAME statements twice in one scope, the first copy guarded: whatever the converter
+    remembers from the first occurrence (a temporary, a cache entry, 'this name is bound now')
+    must not be relied upon by the second one when the first did not run.
+    form: never-then / always-then / then-never / zero-loop-then / sched-then"""
+    flags = _flags_after({"func": False, "loop": False, "cls": False}, container)
+    if not _item_ok(item, flags) or item in ("return_cond", "break_cond", "continue_cond", "global_store"):
+        return None
+    lines = _fill(ITEMS[item][0], 21)
+    ind = ["    " + l for l in lines]
+    if form == "never-then":
+        body = ["if P(901, 0):"] + ind + lines
+    elif form == "always-then":
+        body = ["if P(901, 1):"] + ind + lines
+    elif form == "then-never":
+        body = lines + ["if P(901, 0):"] + ind
+    elif form == "zero-loop-then":
+        body = ["for zz21 in P(901, []):"] + ind + lines
+    elif form == "sched-then":
+        body = ["if C(901):"] + ind + ["else:", "    M(902)"] + lines
+    else:
+        raise ValueError(form)
+    return "\n".join(_nest(container, 1, body)) + "\nM(99)\n"
+
+
+REPEAT_FORMS = ("never-then", "always-then", "then-never", "zero-loop-then", "sched-then")
+
+
+def repeats():
+    for c in sorted(CONTAINERS):
+        for it in sorted(ITEMS):
+            for form in REPEAT_FORMS:
+                yield (c, it, form)
+
+
 def random_deep(seed, n, max_containers=5, max_items=3):
     """n seeded random programs: 3..max_containers containers deep, 1..max_items items in the hole"""
     import random
@@ -185,3 +223,22 @@ def random_deep(seed, n, max_containers=5, max_items=3):
         if build(chain, items) is not None:
             out.append((chain, items))
     return out
+
+
+def catalogue():
+    """every deterministic interaction program: ("nest", containers, items) / ("repeat", container, item, form)"""
+    out = [("nest", cs, its) for cs, its in list(triples()) + list(item_pairs()) + list(deep())]
+    out += [("repeat", c, it, form) for c, it, form in repeats()]
+    return out
+
+
+def build_any(entry):
+    if entry[0] == "nest":
+        return build(entry[1], entry[2])
+    return build_repeat(entry[1], entry[2], entry[3])
+
+
+def label(entry):
+    if entry[0] == "nest":
+        return "%s > %s" % (" > ".join(entry[1]), " ; ".join(entry[2]))
+    return "%s > %s twice (%s)" % (entry[1], entry[2], entry[3])
